@@ -2397,8 +2397,9 @@ class TLSConnection(TLSRecordLayer):
                     yield result
                 else:
                     break
-            if result == "finished":
-                self._handshakeDone(resumed=False)
+            if result in ("finished", "resumed_and_finished"):
+                self._handshakeDone(
+                    resumed=(result == "resumed_and_finished"))
             return
 
         #If not a resumption...
@@ -2909,6 +2910,7 @@ class TLSConnection(TLSRecordLayer):
 
         psk = None
         selected_psk = None
+        resuming = False
         resumed_client_cert_chain = None
         psks = clientHello.getExtension(ExtensionType.pre_shared_key)
         psk_types = clientHello.getExtension(
@@ -2944,6 +2946,7 @@ class TLSConnection(TLSRecordLayer):
 
                 psk = match[0][1]
                 selected_psk = i
+                resuming = not external
                 if ticket:
                     resumed_client_cert_chain = ticket.client_cert_chain
                 try:
@@ -3414,7 +3417,10 @@ class TLSConnection(TLSRecordLayer):
         for result in self._serverSendTickets(settings):
             yield result
 
-        yield "finished"
+        if resuming:
+            yield "resumed_and_finished"
+        else:
+            yield "finished"
 
     def _ticket_to_session(self, settings, ticket_ext):
         if not ticket_ext.ticket:
